@@ -340,6 +340,226 @@ def fingerprint(m, envs):
     return {"parameters": h(params), "buffers": h(bufs), "actions": h(acts), "vecnormalize": h(extra), "n_actions": sum(len(e.actions) for e in envs)}
 
 
+
+# ---------------------------------------------------------------- noise.py correspondence (round 3)
+NOISE_HEADER = """From Coq Require Import List QArith ZArith Bool.
+From SB3V Require Import Model.Noise.
+Import ListNotations.
+Fixpoint veqb (a b : list Q) : bool := match a, b with [] , [] => true | x :: s, y :: t => Qeq_bool x y && veqb s t | _, _ => false end.
+Fixpoint vveqb (a b : list (list Q)) : bool := match a, b with [], [] => true | x :: s, y :: t => veqb x y && vveqb s t | _, _ => false end.
+Fixpoint vvveqb (a b : list (list (list Q))) : bool := match a, b with [], [] => true | x :: s, y :: t => vveqb x y && vvveqb s t | _, _ => false end.
+"""
+
+
+def _ql(v):
+    from fractions import Fraction
+    return coq_list([Fraction(float(x)) for x in v], common.coq_Q)
+
+
+def _qll(rows):
+    return "[" + "; ".join(_ql(r) for r in rows) + "]"
+
+
+def gen_noise_case(rng, i):
+    d = rng.randint(1, 3)
+    dy = lambda lo, hi, q=4: rng.randint(lo * q, hi * q) / q  # noqa: E731
+    kind = ["normal", "ou", "vec-ou", "vec-normal", "ou"][i % 5]
+    n_envs = rng.randint(1, 3) if kind.startswith("vec") else 1
+    dt = rng.choice([0.25, 1.0, 0.0625])
+    c = {"kind": kind, "id": i, "d": d, "n_envs": n_envs, "mu": [dy(-2, 2) for _ in range(d)], "sigma": [dy(0, 2) for _ in range(d)],
+         "theta": rng.choice([0.5, 0.25, 1.0, 0.125]), "dt": dt, "initial_noise": [dy(-2, 2) for _ in range(d)] if rng.random() < 0.6 else None,
+         "dtype": "float64" if rng.random() < 0.8 else "float32"}
+    ops = []
+    for _ in range(rng.randint(2, 7)):
+        if rng.random() < 0.65:
+            ops.append(["call", [[dy(-2, 2) for _ in range(d)] for _ in range(n_envs)]])
+        elif kind.startswith("vec") and rng.random() < 0.7:
+            ops.append(["reset", [rng.randrange(n_envs) for _ in range(rng.randint(0, 3))]])
+        else:
+            ops.append(["reset", None])
+    c["ops"] = ops
+    return c
+
+
+def run_noise_case(c):
+    """real classes with np.random.normal replaced by the recorded oracle; returns (problems, coq_expr or None)"""
+    from fractions import Fraction as F
+
+    import numpy as np
+    from stable_baselines3.common import noise as N
+
+    probs = []
+    d, kind, n_envs = c["d"], c["kind"], c["n_envs"]
+    mu, sigma = np.array(c["mu"], dtype=np.float64), np.array(c["sigma"], dtype=np.float64)
+    init = None if c["initial_noise"] is None else np.array(c["initial_noise"], dtype=np.float64)
+    conf0 = (mu.copy(), sigma.copy(), None if init is None else init.copy())
+    dtype = np.float64 if c["dtype"] == "float64" else np.float32
+    queue = []
+
+    def fake_normal(loc=0.0, scale=1.0, size=None):
+        n = np.array(queue.pop(0), dtype=np.float64)
+        want = np.shape(loc) if size is None else tuple(np.atleast_1d(size))
+        if tuple(n.shape) != tuple(want):
+            probs.append(("noise-draw-shape", f"np.random.normal asked for shape {want}, action dimension is {n.shape}"))
+        return loc + scale * n
+
+    is_ou = kind in ("ou", "vec-ou")
+    base = (N.OrnsteinUhlenbeckActionNoise(mu, sigma, theta=c["theta"], dt=c["dt"], initial_noise=init, dtype=dtype) if is_ou
+            else N.NormalActionNoise(mu, sigma, dtype=dtype))
+    obj = N.VectorizedActionNoise(base, n_envs) if kind.startswith("vec") else base
+    outs = []
+    orig = np.random.normal
+    np.random.normal = fake_normal
+    try:
+        for op, arg in c["ops"]:
+            if op == "call":
+                queue.extend(arg)
+                y = obj()
+                if queue:
+                    probs.append(("noise-draw-count", f"one __call__ consumed {len(arg) - len(queue)} draws, expected {len(arg)} (one per env)"))
+                    queue.clear()
+                want_shape = (n_envs, d) if kind.startswith("vec") else (d,)
+                if tuple(y.shape) != want_shape or y.dtype != dtype:
+                    probs.append(("noise-output-shape-dtype", f"__call__ returned shape {y.shape} dtype {y.dtype}, expected {want_shape} {dtype}"))
+                subs = obj.noises if kind.startswith("vec") else [obj]
+                for sub in subs + ([base] if kind.startswith("vec") else []):
+                    st = getattr(sub, "noise_prev", None)
+                    if st is not None and np.shares_memory(y, st):
+                        probs.append(("noise-output-aliases-state", "__call__ returned an array sharing memory with the stored state"))
+                    ini = getattr(sub, "initial_noise", None)
+                    if ini is not None and np.shares_memory(y, ini):
+                        probs.append(("noise-output-aliases-initial-noise", "__call__ returned an array sharing memory with initial_noise"))
+                outs.append(np.array(y, dtype=np.float64).reshape(n_envs, d).tolist())
+            elif kind.startswith("vec"):
+                obj.reset(arg)
+            else:
+                obj.reset()
+    except Exception as e:
+        probs.append(("noise-exception", f"{type(e).__name__}: {e}"))
+    finally:
+        np.random.normal = orig
+    # configuration arrays unchanged (value), incl. the base noise handed to VectorizedActionNoise
+    for name, arr, old in (("mean", mu, conf0[0]), ("sigma", sigma, conf0[1]), ("initial_noise", init, conf0[2])):
+        if arr is not None and not np.array_equal(arr, old):
+            probs.append((f"run-mutates-configuration-{name}", f"{kind}: using the noise object changed the caller's {name} array {old.tolist()} -> {arr.tolist()}"))
+    # oracle: the textbook recurrences in exact fractions, one independent process per env
+    fr = lambda v: [F(float(x)) for x in v]  # noqa: E731
+    Fm, Fs = fr(c["mu"]), fr(c["sigma"])
+    x0 = fr(c["initial_noise"]) if c["initial_noise"] is not None else [F(0)] * d
+    th, dt, sq = F(c["theta"]), F(c["dt"]), F(math_sqrt_dyadic(c["dt"]))
+    states = [list(x0) for _ in range(n_envs)]
+    want_outs = []
+    for op, arg in c["ops"]:
+        if op == "call":
+            row = []
+            for e in range(n_envs):
+                n = fr(arg[e])
+                if is_ou:
+                    states[e] = [x + th * (m - x) * dt + s_ * sq * z for x, m, s_, z in zip(states[e], Fm, Fs, n)]
+                    row.append(list(states[e]))
+                else:
+                    row.append([m + s_ * z for m, s_, z in zip(Fm, Fs, n)])
+            want_outs.append(row)
+        else:
+            for e in (range(n_envs) if arg is None else arg):
+                states[e] = list(x0)
+    exact = c["dtype"] == "float64"
+    for k, (got, want) in enumerate(zip(outs, want_outs)):
+        for e in range(n_envs):
+            w = [float(v) if exact else float(np.float32(float(v))) for v in want[e]]
+            if got[e] != w:
+                probs.append(("noise-value", f"{kind}: call {k} env {e}: returned {got[e]}, recurrence gives {w}"))
+                break
+    if len(outs) != len(want_outs):
+        probs.append(("noise-call-count", f"{len(outs)} outputs for {len(want_outs)} calls"))
+    if not exact or probs:
+        return probs, None
+    # model
+    cfg = (f"{{| c_theta := {common.coq_Q(th)}; c_dt := {common.coq_Q(dt)}; c_sqdt := {common.coq_Q(sq)}; c_mu := {_ql(c['mu'])}; c_sigma := {_ql(c['sigma'])} |}}" if is_ou else
+           f"{{| c_theta := 1; c_dt := 1; c_sqdt := 1; c_mu := {_ql(c['mu'])}; c_sigma := {_ql(c['sigma'])} |}}")
+    if kind == "ou":
+        ops = "[" + "; ".join(f"OCall {_ql(a[0])}" if o == "call" else "OReset" for o, a in c["ops"]) + "]"
+        if c["initial_noise"] is not None:
+            expr = (f"let ho := ou_new [{_ql(c['initial_noise'])}] {cfg} (Some 0%nat) in let r := ou_run (fst ho) (snd ho) {ops} in "
+                    f"(vveqb (map (hget (fst (fst r))) (snd r)) {_qll([o[0] for o in outs])}, veqb (hget (fst (fst r)) 0) {_ql(c['initial_noise'])})")
+        else:
+            expr = (f"let ho := ou_new [] {cfg} None in let r := ou_run (fst ho) (snd ho) {ops} in "
+                    f"(vveqb (map (hget (fst (fst r))) (snd r)) {_qll([o[0] for o in outs])}, true)")
+    elif kind == "normal":
+        calls = [a[0] for o, a in c["ops"] if o == "call"]
+        expr = f"(vveqb (map (normal_call {_ql(c['mu'])} {_ql(c['sigma'])}) {_qll(calls)}) {_qll([o[0] for o in outs])}, true)"
+    else:
+        vops = "[" + "; ".join(f"VCall {_qll(a)}" if o == "call" else ("VReset None" if a is None else f"VReset (Some {coq_list(a, coq_nat)})") for o, a in c["ops"]) + "]"
+        x0q = _ql(c["initial_noise"]) if (is_ou and c["initial_noise"] is not None) else f"(zeros_like {_ql(c['mu'])})"
+        expr = (f"match vec_make {coq_Z(n_envs)} {x0q} with Some st => (vvveqb (snd (vrun {cfg} {x0q} st {vops})) "
+                + "[" + "; ".join(_qll(o) for o in outs) + "]" + ", true) | None => (false, false) end")
+    return probs, expr
+
+
+def math_sqrt_dyadic(dt):
+    import math
+
+    r = math.sqrt(dt)
+    assert r * r == dt
+    return r
+
+
+def noise_validation_problems():
+    from stable_baselines3.common import noise as N
+    import numpy as np
+
+    probs = []
+    base = N.NormalActionNoise(np.zeros(2), np.ones(2))
+    for bad in (0, -1):
+        try:
+            N.VectorizedActionNoise(base, bad)
+            probs.append(("noise-vectorized-accepts-bad-n-envs", f"VectorizedActionNoise(base, {bad}) did not raise"))
+        except ValueError:
+            pass
+    for bad, exc in ((None, ValueError), (3, TypeError)):
+        try:
+            N.VectorizedActionNoise(bad, 2)
+            probs.append(("noise-vectorized-accepts-bad-base", f"VectorizedActionNoise({bad!r}, 2) did not raise"))
+        except exc:
+            pass
+    v = N.VectorizedActionNoise(N.OrnsteinUhlenbeckActionNoise(np.zeros(2), np.ones(2), initial_noise=np.ones(2)), 3)
+    ids = {id(n) for n in v.noises} | {id(v.base_noise)}
+    arrs = [n.initial_noise for n in v.noises] + [v.base_noise.initial_noise]
+    if len(ids) != 4 or any(np.shares_memory(a, b) for i, a in enumerate(arrs) for b in arrs[i + 1:]):
+        probs.append(("noise-vectorized-copies-share-state", "the per-env noises are not independent deep copies of the base noise"))
+    return probs
+
+
+def noise_campaign(chk):
+    n = 80 if chk.tier == "quick" else 1500
+    fixed = [
+        {"kind": "ou", "id": -1, "d": 2, "n_envs": 1, "mu": [0.0, 1.0], "sigma": [1.0, 2.0], "theta": 0.5, "dt": 0.25, "initial_noise": [0.5, -1.0], "dtype": "float64",
+         "ops": [["call", [[1.0, 1.0]]], ["call", [[0.0, -1.0]]], ["reset", None], ["call", [[1.0, 1.0]]]]},
+        {"kind": "vec-ou", "id": -2, "d": 1, "n_envs": 3, "mu": [0.0], "sigma": [1.0], "theta": 0.5, "dt": 1.0, "initial_noise": [1.0], "dtype": "float64",
+         "ops": [["call", [[1.0], [2.0], [-1.0]]], ["reset", [1, 1]], ["call", [[0.0], [0.0], [0.0]]], ["reset", []], ["call", [[1.0], [1.0], [1.0]]]]},
+    ]
+    cases = fixed + [gen_noise_case(chk.rng, i) for i in range(n)]
+    exprs, owners, reported = [], [], 0
+    hist = {}
+    for c in cases:
+        hist[c["kind"]] = hist.get(c["kind"], 0) + 1
+        probs, expr = run_noise_case(c)
+        if probs and reported < 2:
+            reported += 1
+            chk.violation(probs[0][0], "; ".join(m for _, m in probs[:3]), {"noise_case": c, "problems": probs[:6], "kind": "noise"}, found_input=True)
+        if expr is not None:
+            exprs.append(expr)
+            owners.append(c)
+    for sig, msg in noise_validation_problems()[:2]:
+        chk.violation(sig, msg, {"kind": "noise-validation"}, found_input=True)
+    vals = common.coq_eval_many("C10noise", NOISE_HEADER, exprs, shard=60, procs=2) if exprs else []
+    bad = [(c, v) for c, v in zip(owners, vals) if not (v[0] is True and v[1] is True)]
+    for c, v in bad[:2]:
+        chk.violation("model-correspondence-noise", f"Model.Noise disagrees with the implementation (outputs equal: {v[0]}, initial_noise cell unchanged: {v[1]})",
+                      {"noise_case": c, "correspondence": "harness/c10.py noise_campaign vs Model/Noise.v"}, found_input=False)
+    return {"cases": len(cases), "model_evaluations": len(exprs), "by_kind": hist}
+
+
 # ---------------------------------------------------------------- entropy monitor + seeding-call log
 class Monitor:
     def __init__(self):
@@ -489,7 +709,7 @@ CONFIGS = [
 
 
 def main():
-    chk = Check("C10", level="other", groups=["seed"])
+    chk = Check("C10", level="other", groups=["seed", "noise"])
     chk.build_props()
     # ---- (1) scan
     sites, failures, allowed = scan_repo()
@@ -589,7 +809,9 @@ def main():
                 n_model += 1
                 chk.violation("model-correspondence-seed-plumbing", f"model generators/deliveries {str(got)[:300]} vs implementation {str(want)[:300]}",
                               {"config": cfg, "model": str(got), "impl": str(want), "correspondence": "harness/c10.py vs Model.Seeding.run"}, found_input=False)
-    chk.coverage["evaluations"] = 3 * pairs + len(sites)
+    noise_stats = noise_campaign(chk)
+    chk.notes["noise_correspondence"] = noise_stats
+    chk.coverage["evaluations"] = 3 * pairs + len(sites) + noise_stats["cases"]
     chk.coverage["traces_validated_against_impl"] = 3 * pairs
     chk.coverage["distinct_nontrivial"] = sum(1 for c in cfgs if c["n_envs"] >= 2 or c.get("her") or c.get("use_sde") or c.get("noise") or c.get("vecnormalize"))
     chk.coverage["rule"] = ("paired runs (same seed twice, one different seed) of tiny learn() calls; non-trivial = more than one sub-env or an extra randomness consumer (gSDE resampling, action noise, HER, "
@@ -613,6 +835,11 @@ def main():
 def replay(path):
     d = json.load(open(path))
     r = d["replay"]
+    if r.get("kind") == "noise":
+        probs, expr = run_noise_case(r["noise_case"])
+        vals = common.coq_eval_many("C10noise_replay", NOISE_HEADER, [expr], procs=1) if expr else []
+        print(json.dumps({"problems": probs, "model": str(vals)}, indent=1))
+        return 1 if (probs or any(not (v[0] is True and v[1] is True) for v in vals)) else 0
     if r.get("kind") == "call-site scan":
         sites, failures, allowed = scan_repo()
         bad = [s for s in sites if s[3] == TAG_FAIL] + failures
